@@ -1,0 +1,394 @@
+//! Feature-guarded observation hooks for external runtime monitors (`--features verif`).
+//!
+//! Nothing in this module changes scheduler behaviour. With the feature disabled the module and
+//! every call site are compiled out. With the feature enabled but no observer installed every
+//! hook is one relaxed atomic load.
+//!
+//! Three kinds of hook exist:
+//! * [`point`]: a schedule point at which an observer may delay the calling thread,
+//! * [`event`]: an append-only observation of a protocol step, emitted under the same lock as the
+//!   state it describes,
+//! * [`park_timeout`]: shadows the coordinator stall timeout so that a lost wake-up becomes a
+//!   stable hang instead of an unnoticed pause.
+//!
+//! [`api`] exposes thin wrappers that *call* the crate-private production components so that
+//! an external harness can drive them directly.
+
+use crate::{
+    AbortReason, LocationAndType, ReadVersion, TransactionResult, TransactionStatus, TxId,
+};
+use revm_context::result::{ExecutionResult, InvalidTransaction};
+use revm_primitives::{Address, U256};
+use revm_state::EvmState;
+use std::{
+    sync::{
+        OnceLock,
+        atomic::{AtomicBool, Ordering},
+    },
+    time::Duration,
+};
+
+pub mod api;
+
+/// Thread roles spawned by the scheduler.
+#[derive(Clone, Copy, Debug, PartialEq, Eq, Hash)]
+pub enum Role {
+    /// Speculative worker.
+    Worker,
+    /// Finality coordinator.
+    Finality,
+    /// Ordered commit coordinator.
+    Commit,
+}
+
+/// Wait slots are identified by their address; the registering thread's role names the slot.
+pub type SlotId = usize;
+
+/// Schedule points. The harness may delay the calling thread here.
+#[derive(Clone, Copy, Debug, PartialEq, Eq, Hash)]
+#[allow(missing_docs)]
+pub enum Point {
+    NextLoop,
+    ValidationClaimed,
+    ExecutionClaimed,
+    ExecBeforeRun,
+    ExecAfterRun,
+    ExecBeforeStatus,
+    ExecAfterStatus,
+    ExecErrBeforeKey,
+    ValidateEntry,
+    ValidateAfterTimestamp,
+    ValidateScanItem,
+    ValidateAfterScan,
+    ValidateAfterEstimate,
+    ValidateBeforeNotify,
+    FinalityCandidateEntry,
+    FinalityCandidateLocked,
+    FinalityBeforePublish,
+    FinalityBeforeNotify,
+    CommitBeforeTake,
+    CommitBeforePublish,
+    CommitBeforeRelease,
+    RewindAfterTick,
+    RewindAfterLowerTs,
+    FrontierAfterStore,
+    CursorClaimBeforeCas,
+    DepNextAfterFetch,
+    DepRemoveBetweenLocks,
+    DepAddBetweenLocks,
+    DepKeyAfterRead,
+    WaitAfterFirstCheck,
+    WaitBeforePark,
+    AbortAfterReason,
+    CancelAfterStore,
+    MvLookup,
+    MvBetweenPublish,
+    CacheAfterFetchBasic,
+    CacheAfterFetchStorage,
+    CacheAfterFetchCode,
+    CommitApplyAccount,
+    RunOnceBeforeCas,
+}
+
+/// How one execution attempt ended.
+#[derive(Clone, Copy, Debug, PartialEq, Eq, Hash)]
+pub enum ExecOutcome {
+    /// Executed without reading an estimate.
+    Ok,
+    /// Executed, but read an estimate (result is itself an estimate).
+    OkBlocked,
+    /// EVM error while blocked on an estimate.
+    ErrBlocked,
+    /// Transaction-validation error with no unresolved predecessor.
+    ErrInvalid,
+    /// Fatal (database / custom / precompile) error with no unresolved predecessor.
+    ErrFatal,
+}
+
+/// Why a finality candidate was refused.
+#[derive(Clone, Copy, Debug, PartialEq, Eq, Hash)]
+pub enum FinalityBlock {
+    /// Candidate is not behind the validation cursor.
+    Cursor,
+    /// Candidate is not `Unconfirmed`.
+    Status,
+    /// Candidate's validation is not newer than a rewind covering it.
+    Timestamp,
+}
+
+/// Abort reason kinds.
+#[derive(Clone, Copy, Debug, PartialEq, Eq, Hash)]
+#[allow(missing_docs)]
+pub enum AbortKind {
+    FatalEvmError,
+    CommitError,
+    ParallelError,
+    FallbackSequential,
+}
+
+/// Kinds of cache fill.
+#[derive(Clone, Copy, Debug, PartialEq, Eq, Hash)]
+#[allow(missing_docs)]
+pub enum CacheKind {
+    Basic,
+    Storage,
+    Code,
+}
+
+/// Protocol observations.
+#[derive(Clone, Copy, Debug, PartialEq, Eq, Hash)]
+#[allow(missing_docs)]
+pub enum Event {
+    ThreadStart(Role),
+    ThreadEnd(Role),
+    RunOnce { won: bool },
+    SequentialPath { start: usize },
+    /// `execution_task` examined `txid` under its lock; `status` is the code before the decision
+    /// (0 Initial, 1 Executing, 2 Executed, 3 Validating, 4 Unconfirmed, 5 Conflict, 6 Finality).
+    ExecTask { txid: usize, status: u8, incarnation: usize },
+    ExecStale { txid: usize },
+    ExecBegin { txid: usize, incarnation: usize, at_commit_head: bool },
+    ExecEnd { txid: usize, incarnation: usize, outcome: ExecOutcome, new_locations: bool },
+    ValidationClaim { idx: usize, accepted: bool },
+    ValidationStale { txid: usize },
+    ValidationBegin { txid: usize, incarnation: usize },
+    ValidationEnd { txid: usize, incarnation: usize, ok: bool },
+    Rewind { index: usize },
+    FinalityBlocked { idx: usize, why: FinalityBlock },
+    Finality { idx: usize, incarnation: usize },
+    FinalityPublished { idx: usize },
+    CommitTake { txid: usize },
+    CommitNonceFallback { txid: usize },
+    CommitPublished { idx: usize },
+    Abort { kind: AbortKind, txid: usize, first: bool },
+    Cancel,
+    DepNext { tx: usize, claimed: bool },
+    DepAdd { tx: usize, dep: Option<usize>, was_onboard: bool },
+    DepCleared { tx: usize, by: usize, onboard: bool },
+    DepHandoff { tx: usize },
+    DepStaleEdge { tx: usize, by: usize, current: Option<usize> },
+    DepCommitRelease { tx: usize, onboard: bool, previous: Option<usize> },
+    DepKey { tx: usize, barrier: bool, was_onboard: bool },
+    Register { slot: SlotId },
+    Notify { slot: SlotId, had_thread: bool },
+    WaitEnter { slot: SlotId },
+    ParkEnter { slot: SlotId },
+    ParkExit { slot: SlotId, timed_out: bool },
+    WaitExit { slot: SlotId },
+    CacheFill { kind: CacheKind, inserted: bool },
+    ReplaySkip { txid: usize },
+    ReplayError { txid: usize },
+}
+
+/// Versioned location, mirroring the crate-private `LocationAndType`.
+#[derive(Clone, Debug, PartialEq, Eq, Hash, PartialOrd, Ord)]
+#[allow(missing_docs)]
+pub enum Loc {
+    Basic(Address),
+    Storage(Address, U256),
+    StorageReset(Address),
+    Code(Address),
+}
+
+impl From<&LocationAndType> for Loc {
+    fn from(location: &LocationAndType) -> Self {
+        match location {
+            LocationAndType::Basic(a) => Self::Basic(*a),
+            LocationAndType::Storage(a, s) => Self::Storage(*a, *s),
+            LocationAndType::StorageReset(a) => Self::StorageReset(*a),
+            LocationAndType::Code(a) => Self::Code(*a),
+        }
+    }
+}
+
+/// Origin of one recorded read, mirroring the crate-private `ReadVersion`.
+#[derive(Clone, Debug, PartialEq, Eq)]
+pub enum ReadOrigin {
+    /// Resolved from multi-version memory: `(txid, incarnation)`.
+    Mv(usize, usize),
+    /// Resolved from beneficiary history: `(txid, incarnation)` newest first.
+    Beneficiary(Vec<(usize, usize)>),
+    /// Resolved from the committed cache / backing database.
+    Storage,
+}
+
+/// The committing transaction's beneficiary effect class.
+#[derive(Clone, Copy, Debug, PartialEq, Eq)]
+pub enum BeneficiaryEffectKind {
+    /// Beneficiary untouched by this transaction.
+    Unchanged,
+    /// A deferred reward is folded in at commit.
+    Reward,
+    /// The transaction wrote an absolute beneficiary value (or deleted it).
+    Snapshot,
+}
+
+/// What the ordered-commit loop is about to commit, seen before it is applied.
+#[derive(Clone, Debug)]
+pub struct CommitMeta {
+    /// Transaction index.
+    pub txid: usize,
+    /// Incarnation whose result is being committed.
+    pub incarnation: usize,
+    /// Complete validation read set of that incarnation.
+    pub read_set: Vec<(Loc, ReadOrigin)>,
+    /// Complete write set of that incarnation.
+    pub write_set: Vec<Loc>,
+    /// Class of beneficiary effect.
+    pub beneficiary_effect: BeneficiaryEffectKind,
+}
+
+/// Which path applies a transaction's state.
+#[derive(Clone, Copy, Debug, PartialEq, Eq, Hash)]
+pub enum CommitPath {
+    /// Ordered commit of a speculative result.
+    Parallel,
+    /// Sequential execution / suffix replay.
+    Sequential,
+}
+
+/// Observer interface implemented by the external harness.
+pub trait Hooks: Send + Sync + 'static {
+    /// Schedule point; `a`/`b` carry point-specific indices (usually txid / incarnation).
+    fn point(&self, _point: Point, _a: usize, _b: usize) {}
+    /// Protocol observation.
+    fn event(&self, _event: Event) {}
+    /// Replace the coordinator park timeout.
+    fn park_timeout(&self, _slot: SlotId, default: Duration) -> Duration {
+        default
+    }
+    /// Read/write sets of the result the commit loop is about to apply.
+    fn commit_meta(&self, _meta: CommitMeta) {}
+    /// The exact result and finalized state handed to the committed state for `txid`.
+    fn commit_state(
+        &self,
+        _path: CommitPath,
+        _txid: usize,
+        _result: &ExecutionResult,
+        _state: &EvmState,
+    ) {
+    }
+    /// A transaction skipped as invalid by the sequential path.
+    fn sequential_skip(&self, _txid: usize, _error: &InvalidTransaction) {}
+}
+
+static ACTIVE: AtomicBool = AtomicBool::new(false);
+static HOOKS: OnceLock<&'static dyn Hooks> = OnceLock::new();
+
+/// Install the process-wide observer. Only the first installation takes effect.
+pub fn install(hooks: &'static dyn Hooks) -> bool {
+    let installed = HOOKS.set(hooks).is_ok();
+    ACTIVE.store(true, Ordering::Release);
+    installed
+}
+
+#[inline]
+fn hooks() -> Option<&'static dyn Hooks> {
+    if ACTIVE.load(Ordering::Relaxed) { HOOKS.get().copied() } else { None }
+}
+
+#[inline]
+pub(crate) fn point(point: Point, a: usize, b: usize) {
+    if let Some(hooks) = hooks() {
+        hooks.point(point, a, b);
+    }
+}
+
+#[inline]
+pub(crate) fn event(event: Event) {
+    if let Some(hooks) = hooks() {
+        hooks.event(event);
+    }
+}
+
+#[inline]
+pub(crate) fn park_timeout(slot: SlotId, default: Duration) -> Duration {
+    hooks().map_or(default, |hooks| hooks.park_timeout(slot, default))
+}
+
+pub(crate) fn commit_meta<E>(
+    txid: TxId,
+    incarnation: usize,
+    beneficiary: Address,
+    result: &TransactionResult<E>,
+) {
+    let Some(hooks) = hooks() else { return };
+    let read_set = result
+        .read_set
+        .iter()
+        .map(|(location, version)| {
+            let origin = match version {
+                ReadVersion::MvMemory(v) => ReadOrigin::Mv(v.txid, v.incarnation),
+                ReadVersion::Beneficiary(v) => ReadOrigin::Beneficiary(v.verif_origins()),
+                ReadVersion::Storage => ReadOrigin::Storage,
+            };
+            (Loc::from(location), origin)
+        })
+        .collect();
+    let write_set = result.write_set.iter().map(Loc::from).collect();
+    let beneficiary_effect = match &result.execute_result {
+        Ok(speculative) if speculative.deferred_reward().is_some() => BeneficiaryEffectKind::Reward,
+        Ok(speculative) => match speculative.state().get(&beneficiary) {
+            Some(account) if account.is_touched() => BeneficiaryEffectKind::Snapshot,
+            _ => BeneficiaryEffectKind::Unchanged,
+        },
+        Err(_) => BeneficiaryEffectKind::Unchanged,
+    };
+    hooks.commit_meta(CommitMeta { txid, incarnation, read_set, write_set, beneficiary_effect });
+}
+
+#[inline]
+pub(crate) fn commit_state(
+    path: CommitPath,
+    txid: TxId,
+    result: &ExecutionResult,
+    state: &EvmState,
+) {
+    if let Some(hooks) = hooks() {
+        hooks.commit_state(path, txid, result, state);
+    }
+}
+
+#[inline]
+pub(crate) fn sequential_skip(txid: TxId, error: &InvalidTransaction) {
+    if let Some(hooks) = hooks() {
+        hooks.sequential_skip(txid, error);
+    }
+}
+
+pub(crate) fn abort_event<E>(reason: &AbortReason<E>, first: bool) {
+    let (kind, txid) = match reason {
+        AbortReason::FatalEvmError(txid) => (AbortKind::FatalEvmError, *txid),
+        AbortReason::CommitError(error) => (AbortKind::CommitError, error.txid),
+        AbortReason::ParallelError { txid, .. } => (AbortKind::ParallelError, *txid),
+        AbortReason::FallbackSequential => (AbortKind::FallbackSequential, usize::MAX),
+    };
+    event(Event::Abort { kind, txid, first });
+}
+
+/// Stable numeric code of a transaction status (see [`Event::ExecTask`]).
+pub(crate) fn status_code(status: &TransactionStatus) -> u8 {
+    match status {
+        TransactionStatus::Initial => 0,
+        TransactionStatus::Executing => 1,
+        TransactionStatus::Executed => 2,
+        TransactionStatus::Validating => 3,
+        TransactionStatus::Unconfirmed => 4,
+        TransactionStatus::Conflict => 5,
+        TransactionStatus::Finality => 6,
+    }
+}
+
+/// Emits `ThreadStart` now and `ThreadEnd` when dropped (also while unwinding).
+pub(crate) struct ThreadGuard(Role);
+
+pub(crate) fn thread_guard(role: Role) -> ThreadGuard {
+    event(Event::ThreadStart(role));
+    ThreadGuard(role)
+}
+
+impl Drop for ThreadGuard {
+    fn drop(&mut self) {
+        event(Event::ThreadEnd(self.0));
+    }
+}
